@@ -628,6 +628,7 @@ theorem qsafe_packetsImpl (s : Sock) (hudp : s.tcp = false) (payload : Bytes) (s
   | false =>
     simp only [Bool.false_eq_true, ↓reduceIte]
     intro w hopen
+    unfold recvAll
     exact qsafe_recvPackets s hudp payload (queued s w + 1) Acc.init w hopen (by simp [queued, qlen])
 
 theorem qsafe_packets (s : Sock) (hudp : s.tcp = false) (r : Nat) (payload : Bytes) (single : Bool) :
